@@ -115,6 +115,12 @@ def run(eng, tier):
                     okc = cur[0] == 'collect' and cur[1][0] == 'call' and cur[1][2][0] == ('iter', F(CFG, 'approvers'))
                     okn = new == ('collect', ('iter', SOMEV(M(V_, 'approvers'))))
                     if okc and okn: ok = True
+                # equivalent form: every current approver is contained in the new list
+                if f[0] == 'val' and f[2] is True and f[1][0] == 'call' and f[1][1].endswith('::all') and len(f[1][2]) == 2 and f[1][2][0] == ('iter', F(CFG, 'approvers')):
+                    lam = f[1][2][1]
+                    if lam[0] == 'lambda' and len(lam[3]) == 1 and not lam[3][0][0]:
+                        ret = lam[3][0][1]
+                        if ret[0] == 'contains' and ret[1] == SOMEV(M(V_, 'approvers')) and (ret[2][0] == 'bound' or (ret[2][0] in ('tostr', 'call') and 'bound' in repr(ret[2]))): ok = True
             eng.ob(ok, PROP, 'freeze', 'approvers-superset', 'approvers are replaced while %s are open on a path that does not establish current approvers is a subset of the new list' % ('asks' if ask_open else 'bids'),
                    where=w['site'], detail=p.describe(24), sample={'rule': 'freeze', 'what': 'approver superset', 'asks_open': ask_open, 'bids_open': bid_open})
     for fld in ('approvers', 'executors', 'ask_fee_info', 'bid_fee_info', 'ask_required_attributes', 'bid_required_attributes'):
